@@ -1955,9 +1955,9 @@ End ProgramSim.
 (** * Accept implies the static expression rules and the scoping rules *)
 
 Lemma accept_inv B raw eof p : parse B raw eof = Accept p ->
-  exists s3, program_loop B (fuel_of (toks_of raw)) [] false (main_state B raw) = Ok p s3 /\ serrs (validate_scope s3) = [].
+  exists s3, program_loop B (fuel_of (legal_toks raw)) [] false (loop_start_state B raw) = Ok p s3 /\ serrs (validate_scope s3) = [].
 Proof.
-  unfold parse, main_state, fn_table, toks_of, init_state, globals_scope.
+  unfold parse, loop_start_state, fn_table, legal_toks, newparser_state, globals_scope.
   destruct (signatures B tEOF _ _) as [u s1| |]; try discriminate.
   destruct (_ ++ _) as [|e0 es0]; [|discriminate].
   match goal with |- context[program_loop B ?fu [] false ?s2] => destruct (program_loop B fu [] false s2) as [prog s3| |] eqn:PL end; try discriminate.
@@ -1965,10 +1965,10 @@ Proof.
   intro H. injection H as <-. apply map_rev_nil in EM. exists s3. split; [reflexivity|exact EM].
 Qed.
 
-Lemma main_state_wf B raw : WF (main_state B raw).
+Lemma main_state_wf B raw : WF (loop_start_state B raw).
 Proof. split; [discriminate|reflexivity]. Qed.
-Lemma main_state_abs B raw : abs (main_state B raw) = [map (fun n => (n, true)) (b_globals B)].
-Proof. unfold abs, main_state, absf, globals_scope. simpl. rewrite map_map. reflexivity. Qed.
+Lemma main_state_abs B raw : abs (loop_start_state B raw) = [map (fun n => (n, true)) (b_globals B)].
+Proof. unfold abs, loop_start_state, absf, globals_scope. simpl. rewrite map_map. reflexivity. Qed.
 
 (* (e) + typing oracle, at program level: every expression of an accepted program satisfies the call rules w.r.t. the
    table of the signature pre-pass, and no typing site fired *)
@@ -1989,7 +1989,7 @@ Proof.
   simpl in El. subst l.
   destruct (program_loop_sn B _ _ _ _ _ _ PL Q3) as [_ F3].
   unfold scope_prog. rewrite main_state_abs in Hs. cbn [t_globals tabs_of].
-  change (fns (main_state B raw)) with (fn_table B raw) in Hs. rewrite Hs. cbn [obind].
+  change (fns (loop_start_state B raw)) with (fn_table B raw) in Hs. rewrite Hs. cbn [obind].
   rewrite (validate_close _ Q); [reflexivity|]. eapply scs_of_frames; [exact F3|discriminate].
 Qed.
 
